@@ -191,6 +191,11 @@ func stageE3c() stageResult {
 			cache := map[rune][]uint64{}
 			for i := w; i < len(cps); i += nw {
 				r := cps[i]
+				if len(ci.reps[sigOf(r)]) == 0 {
+					// the lookups give r a class signature no code point had during the class scan: they depend on history
+					res.add("probe "+hx(enc(r)), "a class signature unknown to the class scan", "the signature found by the class scan", fmt.Sprintf("the lookups of U+%04X changed since the class scan (they depend on earlier calls)", r))
+					continue
+				}
 				rep := ci.reps[sigOf(r)][0]
 				if rep == r {
 					// the representative itself is compared with the next member of its signature, if there is one
